@@ -168,7 +168,10 @@ pub fn guarded_case(s: &mut Sink, desc: &str, f: impl FnOnce(&mut Sink)) {
 }
 
 pub fn trunc(s: &str, n: usize) -> String {
-    if s.len() <= n { s.to_string() } else { format!("{}…[{} bytes]", &s[..n], s.len()) }
+    if s.len() <= n { return s.to_string() }
+    let mut k = n;
+    while !s.is_char_boundary(k) { k -= 1; }
+    format!("{}…[{} bytes]", &s[..k], s.len())
 }
 
 /// Silence the default panic printer (panics are expected outcomes in the boundary streams).
